@@ -19,7 +19,7 @@ theorem bits_cw_cfg : ∀ c, c < 128 →
 
 theorem setCE_post (v : Bool) (s : DrvState) (h : Inv s) :
     Post (exec (setCE v) s) s (.ok ()) { s.cfg with ce := v } s.d.pipe0ReadAddr := by
-  rw [exec_setCE']
+  rw [exec_setCE3']
   exact Post.of_reach (by reach h.wf) h.wf rfl rfl { h.cached with }
 
 theorem enterTx_ok {r : Radio} (h : CfgOk r) : CfgOk (enterTx r) := by
@@ -52,7 +52,7 @@ theorem cwTail_post (s : DrvState) (h : Inv s) (hplus : s.cfg.plus = true) :
   have hb := (bits_cw _ h.ok.rfSetup.1 h.ok.rfSetup.2).1
   have hp : s.d.isPlus = true := h.cached.isPlus.trans hplus
   exec_simp [h.cached.rfSetup, hb.1]
-  rw [exec_regWrite_nat _ _ _ (by omega) (by decide)]
+  rw [exec_regWrite_nat3 _ _ _ (by omega) (by decide)]
   exec_simp [hp, Bool.not_true, Bool.false_eq_true]
   refine Post.of_reach (by reach h.wf) h.wf ?_ rfl ?_
   · rw [Radio.w_rfSetup _ _ (hb.1 ▸ hb.2.1)]; rfl
@@ -119,7 +119,7 @@ theorem cwStopTail_post (s : DrvState) (h : Inv s) :
       { s.cfg with rfSetup := setBit (setBit s.cfg.rfSetup 7 false) 4 false } s.d.pipe0ReadAddr := by
   have hb := (bits_cw _ h.ok.rfSetup.1 h.ok.rfSetup.2).2
   exec_simp [h.cached.rfSetup, hb.1]
-  rw [exec_regWrite_nat _ _ _ (hb.1 ▸ hb.2.2.1) (by decide)]
+  rw [exec_regWrite_nat3 _ _ _ (hb.1 ▸ hb.2.2.1) (by decide)]
   refine Post.of_reach (by reach h.wf) h.wf ?_ rfl ?_
   · rw [Radio.w_rfSetup _ _ (hb.1 ▸ hb.2.1)]; rfl
   · refine { h.cached with rfSetup := ?_ }
